@@ -95,7 +95,7 @@ func C10(seed uint64, run int) *spec.Spec {
 		lk.Sect = r.Range(1, 2)
 		lk.Base = 1900
 		if lk.API == 0 {
-			switch r.Weighted([]int{40, 8, 8, 8, 8, 10, 10, 8}) {
+			switch r.Weighted([]int{36, 7, 7, 7, 7, 9, 9, 7, 11}) {
 			case 0:
 				lk.Base = 1900
 			case 1:
@@ -110,8 +110,16 @@ func C10(seed uint64, run int) *spec.Spec {
 				lk.Base = 1984
 			case 6:
 				lk.Base = cy - 59
-			default:
+			case 7:
 				lk.Base = cy
+			default:
+				// any base year, early centuries included (Julian-calendar years behave differently: the first
+				// Jie of the civil year is Lichun, Xiaohan falls in the December before)
+				if r.Chance(0.5) {
+					lk.Base = r.Range(2, 1700)
+				} else {
+					lk.Base = r.Range(2, cy)
+				}
 			}
 			if lk.Base < 1 {
 				lk.Base = 1
@@ -150,6 +158,17 @@ func C10(seed uint64, run int) *spec.Spec {
 			default:
 				return r.Range(lo, hi)
 			}
+		}
+		if lk.API == 0 && lk.Base > 2 && r.Chance(0.1) {
+			// a moment in the last weeks BEFORE the base year: outside the completeness range, but whatever the
+			// lookup returns for its pillars must still not be earlier than the base year
+			lk.Moment = [6]int{lk.Base - 1, 12, r.Range(8, 31), r.Intn(24), r.Intn(60), r.Intn(60)}
+			if r.Chance(0.3) {
+				lk.Moment[1], lk.Moment[2] = 11, r.Range(1, 30)
+			}
+			lk.Why = "just_before_base"
+			s.Lookups = append(s.Lookups, lk)
+			continue
 		}
 		if lk.API == 0 && lk.Base <= 1843 && r.Chance(0.3) {
 			off := 0
